@@ -29,8 +29,10 @@ def py_repr(t, v):
         return True
     if k == 's':
         return not (t[1] == 'timestamp' and v[0] == 'int' and not (G.TS_MIN <= v[1] <= G.TS_MAX))
-    if k in ('list', 'set', 'vector'):
+    if k in ('list', 'set'):
         return all(py_repr(t[1], x) for x in v[1])
+    if k == 'vector':
+        return all(x[0] != 'null' and py_repr(t[1], x) for x in v[1])
     if k == 'map':
         return all(py_repr(t[1], a) and py_repr(t[2], b) for a, b in v[1])
     if k in ('tuple', 'udt'):
